@@ -6,7 +6,7 @@ Correspondence: written arguments are *rendered by the extracted render_arg* (so
 exactly the theorems' domain), bound by the real code (instruction built directly and run with
 run_instruction; a sample also through run_script with the argument written in quotes) and compared
 with the extracted model `bind_args` and the extracted specification `denote_args`.
-Known-finding classes (F9 = KF-C02-1/2, KF-C02-3) are classified by the extracted predicates of the
+Known-finding classes (F9 = KF-C02-1, and KF-C02-3; KF-C02-2 is repaired and in the domain) are classified by the extracted predicates of the
 `known_arg` hypothesis of C02_bind; only those classes are tolerated."""
 import itertools
 import json
@@ -16,7 +16,7 @@ from vlib import enc_str, enc_list, dec_list, dec_str
 
 THEOREMS = ["C02_single", "C02_spread", "C02_words", "C02_spread_words", "C02_bind", "C02_count",
             "C02_count_templates", "C02_KF1_quote_refuted", "C02_KF1_open_quote_refuted",
-            "C02_KF2_hash_refuted", "C02_KF3_esc_pct_refuted", "C02_KF3_esc_bs_refuted", "C02_nonvacuous"]
+            "C02_hash_example", "C02_KF3_esc_pct_refuted", "C02_KF3_esc_bs_refuted", "C02_nonvacuous"]
 
 NAMES4 = ["v", "w", "a%b", ""]
 NAMES = NAMES4 + ["x$y", "p\\q", "é", "n{m", "a\"b", "#h", "a.b", "1", "${v", "\\"]
@@ -33,7 +33,6 @@ assert len(VALUES) >= 24
 KF = {
     "q": ("KF-C02-1", "%{name} with a value in which a space-separated word begins with a double quote: quotes group "
                       "words and are stripped, an unterminated quote yields one empty argument (e.g. v = 'a \"b c\"' gives [a, b c]; v = 'a \"b' gives [''])"),
-    "h": ("KF-C02-2", "%{name} with a value containing '#': the rest of the value is dropped (e.g. v = 'a#b c' gives [a])"),
     "e": ("KF-C02-3", "\\${name} with a name containing $, % or a back-slash is not left literal: a '%' flips the whole argument "
                       "to spread mode (\"x y\\${a%b}\" is received as two arguments), '\\$' inside the name loses the back-slash"),
 }
@@ -165,14 +164,15 @@ def run(ck):
     # ---- corpus: witnesses of findings, always first -------------------------------------------------------
     witnesses = {
         "q": [({"v": "a \"b c\""}, [S("v")]), ({"v": "a \"b"}, [S("v")])],
-        "h": [({"v": "a#b c"}, [S("v")])],
         "e": [({}, [T(("L", "x y"), ("E", "a%b"))]), ({}, [T(("E", "a\\$b"))])],
     }
-    for cls in "qhe":
+    for cls in "qe":
         for (e, a) in witnesses[cls]:
             cases.append((e, a, "witness-" + cls))
     n_wit = len(cases)
     cases.append(({"v": "  "}, [S("v")], "corpus"))                          # F10 (fixed): blank spreads to nothing
+    cases.append(({"v": "a#b c"}, [S("v")], "corpus"))                       # KF-C02-2 (fixed): '#' in a spread value is data -> [a#b, c]
+    cases.append(({"v": "# a", "w": "x #y#"}, [S("v"), T(("L", "k")), S("w")], "corpus"))
     cases.append(({"v": ""}, [S("v")], "corpus"))
     cases.append(({}, [S("v")], "corpus"))
     cases.append(({"v": "${v} %{v}\"\\#\n"}, [T(("L", "a"), ("V", "v"), ("E", "v"))], "corpus"))
@@ -282,8 +282,8 @@ def run(ck):
         dist = {"tags": {}, "classes": {}, "spec_branch": {}, "args": {}, "pieces": {}}
         nontriv = set()
         n_domain = n_known = n_off = n_skip = n_s = 0
-        known_diff = {"q": 0, "h": 0, "e": 0}
-        known_total = {"q": 0, "h": 0, "e": 0}
+        known_diff = {"q": 0, "e": 0}
+        known_total = {"q": 0, "e": 0}
         known_model_disagree = 0
         viol = []
         printed = set()
@@ -391,5 +391,5 @@ def run(ck):
         "the runner's dispatch around bind_command_arguments (run_instruction: command lookup, CommandInvocationContext) "
         "is exercised by the correspondence run, not modelled",
         "reparse errors are all mapped to ExpandedValue::None (as in the code); the error kind is not observable",
-        "known-finding classes KF-C02-1/2/3 are tolerated only while known_findings.json lists them as open findings",
+        "known-finding classes KF-C02-1 and KF-C02-3 are tolerated only while known_findings.json lists them as open findings",
     ]
